@@ -63,6 +63,26 @@ func runC04(c *Ctx) {
 				default:
 					R.FailPath("R04.1", key, pos, fn, "IsDest = "+isd.String()+" is neither constant false, constant true under an outer-source check, nor the comparison outer source == target", pstr)
 				}
+				// R04.4 the other direction of "exactly when": on the reply forms that prove arrival for this protocol, a reply
+				// from the target must mark the destination – IsDest may not be constant false there
+				mustMark := false
+				switch m.roles.Variant {
+				case "icmp":
+					mustMark = cls.Form == "echo-reply"
+				case "udp":
+					mustMark = cls.Form == "icmp-quote"
+				case "syn":
+					mustMark = cls.Form == "tcp-direct"
+				case "sack":
+					mustMark = cls.Form == "tcp-direct" || cls.Form == "icmp-quote"
+				}
+				if mustMark {
+					if mayBeTrue {
+						R.OK("R04.4", key+"/marks", pos, fn, "a reply of the proof-of-arrival form can mark the destination on this path")
+					} else {
+						R.FailPath("R04.4", key+"/marks", pos, fn, "IsDest is constant false on a "+cls.Form+" accept path of the "+m.roles.Variant+" driver: a reply of this form sent by the target itself proves arrival for this protocol but would not mark the destination (the trace runs on to MaxTTL and e2e probes report loss)", pstr)
+					}
+				}
 				// R04.2 proof-of-arrival form
 				if !mayBeTrue {
 					continue
